@@ -8,6 +8,7 @@ import Qv.Drv.C12
 import Qv.Drv.C02
 import Qv.Drv.C07
 import Qv.Drv.C08
+import Qv.Drv.C13
 /-! Line protocol: `<op> <json>` per line in, one JSON document per line out. -/
 open Lean
 
@@ -25,7 +26,8 @@ def handlers : List (String × (Json → Except String Json)) := [
   ("C02.matmul", Qv.Drv.C02.matmul),
   ("C07.super", Qv.Drv.C07.superJ),
   ("C07.liouvillian", Qv.Drv.C07.liouvJ),
-  ("C08.shuffle", Qv.Drv.C08.shuffleJ)
+  ("C08.shuffle", Qv.Drv.C08.shuffleJ),
+  ("C13.read_seed", Qv.Drv.C13.readSeedJ)
 ]
 
 def handle (line : String) : String :=
